@@ -2058,6 +2058,7 @@ static void vbi_proxyd_channel_timer( void )
             dprintf(DBG_MSG, "schedule_timer: schedule device #%d\n", dev_idx);
 
             vbi_proxyd_channel_update(dev_idx, NULL, FALSE);
+            VERIF_STATE("timer", -1);
          }
       }
    }
